@@ -276,6 +276,8 @@ impl SvgBuilder {
 
         for y in 0..qr.size {
             let line = &qr[y];
+            #[cfg(fast_qr_verif)]
+            crate::verif::point("svg.row");
             for (x, &cell) in line.iter().enumerate() {
                 if !cell.value() {
                     continue;
@@ -320,7 +322,11 @@ impl SvgBuilder {
             self.background_color.to_str()
         ));
 
+        #[cfg(fast_qr_verif)]
+        crate::verif::point("svg.head");
         out.push_str(&self.path(qr));
+        #[cfg(fast_qr_verif)]
+        crate::verif::point("svg.path");
         out.push_str(&self.image(n));
 
         out.push_str("</svg>");
